@@ -244,7 +244,8 @@ def run(ctx):
         for j, pat in enumerate(PATTERNS):
             # all of one length: positions stay comparable; the last two pairs: names that begin like the counters desugaring invents, which
             # are ordinary names unless they have exactly the generated form (review of fe62dce: the passes skipped every name with that prefix)
-            for (a, b) in (("xx", "yy"), ("xx", "xx"), ("yy", "yy"), ("x_", "x_")) + ((("qnon_var_ab", "qnon_var_cd"), ("anon_var_ab", "anon_var_cd"), ("anon_var_1x", "anon_var_2_")) if j < 8 else ()):
+            for (a, b) in (("xx", "yy"), ("xx", "xx"), ("yy", "yy"), ("x_", "x_")) + ((("qnon_var_ab", "qnon_var_cd"), ("anon_var_ab", "anon_var_cd"), ("anon_var_1x", "anon_var_2_"),
+                                                                                            ("qnon_var_1_2", "qnon_var_3_4"), ("anon_var_1_2", "anon_var_3_4"), ("anon_var_9_9", "anon_var_9_9")) if j < 8 else ()):
                 text = "pragma circom 2.0.0;\ntemplate U() { signal input a; signal output b; b <== a; }\n" + pat % {"A": a, "B": b} + "\n"
                 p = wd2.write("pat%d_%s_%s.circom" % (j, a, b), text)
                 reqs4.append({"inputs": [p], "libs": [], "curve": "BN254"})
@@ -253,7 +254,7 @@ def run(ctx):
         for (j, a, b, text), rep in zip(metas4, vlib.analyze(reqs4)):
             key = collections.Counter((r["id"], tuple((l["start"], l["end"]) for l in r["primary"])) for r in vlib.reports_of(rep) if r["id"] not in ("CS0001",))
             stats["spelling-independence runs"] += 1
-            if (a, b) in (("xx", "yy"), ("qnon_var_ab", "qnon_var_cd")):
+            if (a, b) in (("xx", "yy"), ("qnon_var_ab", "qnon_var_cd"), ("qnon_var_1_2", "qnon_var_3_4")):
                 base[j] = (key, text)
             elif key != base[j][0]:
                 l1 += 1
